@@ -138,7 +138,8 @@ def parseEnv (toks : List String) : Option Env := do
   let direct : Option Bool ← match kv toks "direct" with
     | none => some (some true) | some "ok" => some (some true) | some "invalid" => some (some false)
     | some "fail" => some none | _ => none
-  pure { evOk := evok, owners := owners, verdict := verdict, auth := auth, directOk := direct }
+  let down := (kv toks "down").map (· != "0") |>.getD false
+  pure { evOk := evok, owners := owners, verdict := verdict, auth := auth, directOk := direct, down := down }
 
 def parseAclType : String → Option AclType
   | "join" => some .join | "publish" => some .publish | "read" => some .read | _ => none
